@@ -130,6 +130,8 @@ def to_script(ops: list, base: dict, *, seed: int, verbose=None, saving=None, nj
     # shape of the simulated series: (N, D, length of the real series) - varied pseudo-randomly with the seed unless given
     n, d, nreal = shape if shape is not None else [(8, 1, 8), (9, 2, 9), (8, 3, 8), (10, 2, 8), (8, 1, 8)][seed % 5]
     cfg.update({"N": n, "D": d, "Nreal": nreal})
+    if njobs > 1 and seed % 2 == 0:
+        cfg.update({"slow": True, "D": 1})     # parameter-dependent run times: workers complete out of task order
     return {"cfg": cfg, "ops": sops, "loss": {"seq": losses, "default": base["lossvals"][-1]}, "faults": faults,
             "agent": agent or [0], "tlc_ops": ops}
 
